@@ -13,6 +13,7 @@ TRUSTED = [
     "hand-written transition-system model Sys (shared with C05), tied to the code by the fault/cancellation sweeps and the concurrent explorer of this "
     "run with the simulated network's stream ledger as the observation",
     "the simulated start_tls follows the real back ends' contract: the underlying stream is closed when the handshake fails with an exception, not when it is cancelled",
+    "Sys is tied to the real pool step by step (harness/sysconf.py): after every scheduling step of explored runs the real pool is projected onto Sys's state space and the Lean driver searches Sys.step breadth-first for a model run between consecutive observations (this run)",
 ]
 ASSUMPTIONS = ["no responses are outstanding when the pool is closed", "trace call-backs do not suspend"]
 LEVEL_TEXT = ("Lean 4 theorems about the transition-system model: in every reachable state (every interleaving, fault position, scope-cancellation point) "
@@ -28,6 +29,8 @@ DESIGN_REF = "§5 C06"
 
 def run(ctx, driver):
     rec = propbase.Rec(ctx, ID)
+    import sysconf
+    sysconf.run_conformance(ctx, rec, 60, 2000)
     sweeprun.run_sweeps(ctx, rec, ID, ["C06:"])
     import concur
     concur.explore(ctx, rec, ID, {"p_fault": 0.12, "p_cancel": 0.15, "gate_close": True}, 40, 600, ["C06:"])
